@@ -881,7 +881,7 @@ pub fn run(rep: &mut Report) {
         let dl = std::env::var("C09_DATA").ok().and_then(|x| x.parse().ok()).unwrap_or(2);
         explore(rep, 3, 4, 40, 400_000, dl, 1);
     } else {
-        explore(rep, 4, 5, 40, 6_000_000, 2, 2);
+        explore(rep, 4, 5, 40, 900_000, 2, 2); // ~13 KB per held state (two graphs, model, history): 900 000 states stay below the resident-set cap
     }
 }
 
